@@ -4,6 +4,7 @@ From Saml Require Import Base.Bytes Idp.FactTypes Gen.Facts Gen.Pure Idp.Sso Idp
 Record lo_obs := { lo_kind : Z; lo_status : bytes; lo_irt : bytes; lo_issuer : bytes; lo_dest : bytes; lo_target : bytes; lo_relay : bytes }.
 Record lo_case := { lc_id : Z; lc_form : option lform; lc_dec : option lreq; lc_sp : option sp_rec; lc_times : list (bytes * instant); lc_now : Z;
                     lc_eid : bytes; lc_obs : lo_obs;
+                    lc_spdoc : option rnode;
                     lc_doc : option (bool * rnode)  (* the inflated payload as Go's tokenizer resolves it *) }.
 Fixpoint assoc_inst (s : bytes) (l : list (bytes * instant)) : instant :=
   match l with [] => if is_empty s then IAbsent else IBad | (k, v) :: r => if beq s k then v else assoc_inst s r end.
@@ -26,6 +27,6 @@ Definition lo_obs_eqb (x y : lo_obs) : bool :=
 (** the abstract request of the case is what the model of DecodeLogoutRequest makes of the document *)
 Definition lo_doc_ok (k : lo_case) : bool :=
   match lc_doc k with Some (trailing, doc) => option_eqb lreq_eqb (lreq_of_doc trailing doc) (lc_dec k) | None => true end.
-Definition lo_ok (k : lo_case) : bool := lo_obs_eqb (lo_project (lo_model k)) (lc_obs k) && lo_doc_ok k.
+Definition lo_ok (k : lo_case) : bool := lo_obs_eqb (lo_project (lo_model k)) (lc_obs k) && lo_doc_ok k && sp_doc_ok (lc_sp k) (lc_spdoc k).
 Definition lo_bad (ks : list lo_case) : list Z := map lc_id (filter (fun k => negb (lo_ok k)) ks).
 Definition lo_predict (k : lo_case) := lo_project (lo_model k).
